@@ -215,6 +215,82 @@ def rule_raw_closed_dispatch(ctx, rep, cfgs, facts):
                          % (cfg_label(cfg), name, name), loc(model.unit_of(render), render.node))
 
 
+def rule_instance_containers(ctx, rep, cfgs, facts):
+    """Values a renderer keeps between render calls (a dict-valued attribute that one method fills and another reads - a
+    cache) re-enter the output in whatever context the reader has. Two passes: the first records every value a
+    render method stores into such an attribute; the second re-runs the readers with lookups that may yield any stored
+    value, and the output goes through the same HTML lexer - a value escaped for text must not come back inside an
+    attribute."""
+    model = ctx.model
+    for cfg in cfgs:
+        uni = universe(cfg, facts)
+        by_name = {}
+        for c in uni:
+            by_name.setdefault(c.name, []).append(c)
+        log = []
+        runs = []
+        for key, func in sorted(cfg.render_map.items(), key=lambda kv: kv[0]):
+            if isinstance(func, FuncInfo):
+                for cls in by_name.get(key, []):
+                    runs.append((key, func, cls))
+        dict_attrs = [a for a, v in cfg.obj.attrs.items() if isinstance(v, dict) and a != 'render_map']
+        if not dict_attrs:
+            continue
+        touched = {}
+        for key, func, cls in runs:
+            mine = []
+            T.run_render_method(model, cfg, func, cls, facts, containers=('record', mine), max_paths=400)
+            for attr, what, value in mine:
+                touched.setdefault(attr, {'store': [], 'read': set()})
+                if what == 'store':
+                    touched[attr]['store'].append(value)
+                elif what == 'read':
+                    touched[attr]['read'].add((key, func, cls))
+        # self-recursive string helpers (render_to_plain) are summarised separately: record what they store and read too
+        cg = ctx.callgraph()
+        recursive = []
+        for c in cfg.cls.mro():
+            if isinstance(c, ClassInfo):
+                for m in c.methods.values():
+                    if m.qualname in cg.edges.get(m.qualname, ()) and m not in recursive and cfg.cls.lookup(m.name)[1] is m:
+                        recursive.append(m)
+        for m in recursive:
+            mine = []
+            T.inductive_summary(model, cfg, m, containers=('record', mine))
+            for attr, what, value in mine:
+                touched.setdefault(attr, {'store': [], 'read': set()})
+                if what == 'store':
+                    touched[attr]['store'].append(value)
+                elif what == 'read':
+                    touched[attr]['read'].add(('(helper)', m, None))
+        carried = {a: t for a, t in touched.items() if t['store'] and t['read']}
+        rep.instance('R-HOLE')
+        rep.obligation('R-HOLE', True, {'config': cfg_label(cfg), 'dict attributes': dict_attrs,
+                                        'filled by one render method and read by another': sorted(carried)})
+        summary = {a: t['store'] for a, t in carried.items()}
+        if not carried:
+            continue
+        attrs_txt = ', '.join('self.' + a for a in sorted(carried))
+        for attr in [attrs_txt]:
+            for key, func, cls in runs:
+                unit = model.unit_of(func)
+                for po in T.run_render_method(model, cfg, func, cls, facts, containers=('summary', summary), max_paths=800):
+                    if po.truncated or po.raised is not None:
+                        continue
+                    sk = po.value if isinstance(po.value, T.Skel) else T.Skel.of(po.value)
+                    issues, holes, tags = T.lex_html(sk, raw_ok=False,
+                                                     inductive=lambda f: T.inductive_summary(model, cfg, f, containers=('summary', summary)))
+                    bad = [i for i in issues if i.kind == 'hole']
+                    rep.obligation('R-HOLE', not bad, {'method': func.short, 'token': key, 'config': cfg_label(cfg),
+                                                       'reads back': attr, 'skeleton': sk.text()[:120]})
+                    for i in bad:
+                        label = getattr(i.hole, 'label', None) or T._hole_name(i.hole)
+                        rep.find('R-HOLE', func.short, 'carried:%s->%s' % (label, i.context),
+                                 '%s (token %s): with values carried between render calls in %s (filled by one method, read by another) '
+                                 'a value reaches a %s context that is not escaped for it: %s; skeleton %r'
+                                 % (func.short, key, attr, i.context, i.detail, sk.text()[:120]), loc(unit, func.node))
+
+
 def rule_sanitisers(ctx, rep, cfgs, facts):
     """Postconditions of the escaping helpers, computed from their own bodies."""
     model = ctx.model
@@ -262,6 +338,7 @@ def run(ctx):
     total_holes, methods, vocab = analyse_renderers(ctx, rep, cfgs, facts)
     rule_raw_only(ctx, rep, cfgs, facts)
     rule_raw_closed_dispatch(ctx, rep, cfgs, facts)
+    rule_instance_containers(ctx, rep, cfgs, facts)
     rule_sanitisers(ctx, rep, cfgs, facts)
     rep.extra['tag_vocabulary'] = sorted(vocab)
     rep.extra['methods_analysed'] = sorted(methods)
